@@ -965,7 +965,10 @@ def report_b(ctx, summ, stats):
             ex_ = (res.get("replay") or {}).get("expr")
             rect, below = interp_flags(ex_)
             key = dict(key, interp_rect_base=rect, interp_below_default_path=below,
-                       toeplitz_size1_batch_dim=toeplitz_inner1(ex_))
+                       toeplitz_size1_batch_dim=toeplitz_inner1(ex_),
+                       lanczos_diagonalization_of_non_dense=bool(
+                           (key.get("fn") == "diag_lanczos" or (key.get("fn") == "diag_default" and key.get("chol0")))
+                           and ex_ is not None and ex_.get("cls") != "Dense"))
         except Exception:  # noqa
             pass
         sig = json.dumps({k: key.get(k) for k in ("fail", "fn", "fn_kind", "tree", "leaf_cls", "rg", "chol0", "batch", "exc",
